@@ -639,15 +639,21 @@ def real_ops(ops):
     return {"results": results, "failed": len(l._failed_validations), "tracebacks": len(l.tracebackMessages), "stored": len(l.messages), "write": w}
 
 
-def oracle_api(ctx, ac, obs, spec, cbs, logged):
-    what = "message type %r written as %s with %r" % (ac["message_type"], ac["spelling"], {k: v for k, v in logged.items() if k not in RESERVED})
+def oracle_api(ctx, ac, obs, spec, cbs, intended):
+    """judged by what the application PASSED (`intended` = its keyword arguments + the type's message_type), not by what arrived"""
+    what = "message type %r written as %s with %r" % (ac["message_type"], ac["spelling"], {k: v for k, v in intended.items() if k not in RESERVED})
     if obs["wrote"] != "ok":
         ctx.violation("logging raised %s into the application: %s" % (obs["wrote"], what), ac, key=None)
         return
     if obs["count"] != 1:
         ctx.violation("%d messages of the type reached the logger instead of one: %s" % (obs["count"], what), ac, key=None)
         return
-    want = rule_accepts(spec, logged, cbs, "mem")
+    got = {k: v for k, v in obs["logged"].items() if k not in RESERVED}
+    passed = {k: v for k, v in intended.items() if k not in RESERVED}
+    if set(got) != set(passed) or any(got[k] is not passed[k] and got[k] != passed[k] for k in passed):
+        ctx.violation("the message that reached the logger has fields %r, the application passed %r: %s" % (got, passed, what), ac, key=None)
+        return
+    want = rule_accepts(spec, intended, cbs, "mem")
     for call in ("validate", "check"):
         if (obs[call] == "ok") != want:
             ctx.violation("%s %s although the message %s its declared type: %s" % (
@@ -870,9 +876,11 @@ def run(ctx):
                 api_case = dict(kind="api", env=env, message_type=dn["mt_name"], fields=[field_json(f, reg) for f in dn["mfields"]],
                                 values={k: enc_val(v, reg) for k, v in fields.items()}, spelling=spelling)
                 obs = api_write(dn["mt_name"], dn["mfields"], fields, spelling, cbs)
-                logged = obs["logged"] if obs["logged"] is not None else dict(fields, message_type=dn["mt_name"])
-                cases.append(dict(kind="validate", env=env, ser=spec_json(mspec, reg), msg=enc_msg(logged, reg)))
-                metas.append(("api", dict(api_case=api_case, obs=obs, tag=tag, spec=mspec, cbs=cbs, logged=logged)))
+                # model and oracle see what the application passed (plus the three reserved fields as logged), not what arrived
+                intended = dict(fields, message_type=dn["mt_name"])
+                intended.update({k: v for k, v in (obs["logged"] or {}).items() if k in RESERVED})
+                cases.append(dict(kind="validate", env=env, ser=spec_json(mspec, reg), msg=enc_msg(intended, reg)))
+                metas.append(("api", dict(api_case=api_case, obs=obs, tag=tag, spec=mspec, cbs=cbs, logged=intended)))
         for _ in range(ctx.budget(6, 6)):
             ops = gen_ops(rng, all_msgs)
             cases.append(dict(kind="ops", env=env, ops=[o if isinstance(o, str) else
@@ -1088,8 +1096,9 @@ def replay(ctx, obj):
         fields = {k: dec_val(v) for k, v in c["values"].items()}
         obs = api_write(c["message_type"], mfields, fields, c["spelling"], cbs)
         print(obs)
-        logged = obs["logged"] if obs["logged"] is not None else dict(fields, message_type=c["message_type"])
-        oracle_api(ctx, c, obs, {"message_type": c["message_type"], "fields": mfields}, cbs, logged)
+        intended = dict(fields, message_type=c["message_type"])
+        intended.update({k: v for k, v in (obs["logged"] or {}).items() if k in RESERVED})
+        oracle_api(ctx, c, obs, {"message_type": c["message_type"], "fields": mfields}, cbs, intended)
     elif c.get("kind") == "produce" and "env" in c:
         cbs, ser_of = rebuild(c, reg)
         fl = lambda fs: [dict(f, value=dec_val(f["value"])) if f["t"] == "value" else dict(f) for f in fs]  # noqa
